@@ -96,7 +96,11 @@ func (oc *originCtx) visit(v ssa.Value, d int) {
 			oc.add("make", "local allocation at "+oc.c.posV(x), x)
 		}
 	case *ssa.Const:
-		oc.add("const", "constant", x)
+		if x.Value == nil {
+			oc.add("nil", "nil (no storage)", x)
+		} else {
+			oc.add("const", "constant", x)
+		}
 	case *ssa.Global:
 		oc.add("global", x.Name(), x)
 	case *ssa.UnOp:
